@@ -419,6 +419,16 @@ def resource_observer_pass(ctx):
         class Obs(EObserver):
             def notifyChanged(self, n):
                 heard.append((id(n.notifier), n.kind.name, n.feature.name))
+        if k % 3 == 0:
+            # an earlier observer of the resource that listens once and leaves while it is being told: the one registered
+            # after it still hears that very change
+            class Once(EObserver):
+                def notifyChanged(self, n):
+                    if self in res.listeners:
+                        res.listeners.remove(self)
+            res.listeners.append(Once())
+            if k % 6 == 0:
+                res.listeners.append(Once())
         res.listeners.append(Obs())
         own = []
         for o in inside + outside:
